@@ -1,6 +1,8 @@
 package tlog
 
 import (
+	"bytes"
+	"fmt"
 	"io"
 
 	"github.com/bluenviron/gomavlib/v3/pkg/dialect"
@@ -22,12 +24,19 @@ type Writer struct {
 	//
 
 	frameWriter *frame.Writer
+	buf         bytes.Buffer
 }
 
 // Initialize initializes Writer.
 func (w *Writer) Initialize() error {
+	if w.ByteWriter == nil {
+		return fmt.Errorf("ByteWriter not provided")
+	}
+
+	// entries are assembled in a buffer and written at once, in order
+	// not to leave a dangling timestamp when the frame cannot be encoded
 	w.frameWriter = &frame.Writer{
-		ByteWriter: w.ByteWriter,
+		ByteWriter: &w.buf,
 		DialectRW:  w.DialectRW,
 	}
 	err := w.frameWriter.Initialize()
@@ -51,15 +60,14 @@ func (w *Writer) Write(entry *Entry) error {
 		byte(epoch >> 8),
 		byte(epoch),
 	}
-	_, err := w.ByteWriter.Write(buf)
+	w.buf.Reset()
+	w.buf.Write(buf)
+
+	err := w.frameWriter.Write(entry.Frame)
 	if err != nil {
 		return err
 	}
 
-	err = w.frameWriter.Write(entry.Frame)
-	if err != nil {
-		return err
-	}
-
-	return nil
+	_, err = w.ByteWriter.Write(w.buf.Bytes())
+	return err
 }
